@@ -28,6 +28,7 @@ from .core import Unsupported
 from .e1_srcmodel import dotted
 from .e2_eval import AutoEvaluator, Unknown, is_unknown, need, IDENT_METHODS, ZERO_CTORS, ONE_CTORS, DictValue, _assigned_names
 from .sem import unfn, module_consts
+from .c18_fold import raw_module, raw_func
 
 MAX_PATHS = 600
 MAX_DEPTH = 3
@@ -637,6 +638,12 @@ class PathEval(AutoEvaluator):
             if any(is_unknown(p) or isinstance(p, tuple) for p in parts):
                 return next((p for p in parts if is_unknown(p)), Unknown("comparison of tuples"))
             return F.fn("bool:And", *[need(p) for p in parts])
+        if isinstance(node, ast.Compare) and len(node.ops) == 1 and isinstance(node.ops[0], (ast.In, ast.NotIn)) \
+                and isinstance(node.comparators[0], (ast.Tuple, ast.List, ast.Set)):
+            a, b = self._ev(node.left), self._ev(ast.Tuple(elts=node.comparators[0].elts, ctx=ast.Load()))
+            if is_unknown(a) or isinstance(a, tuple) or not isinstance(b, tuple) or any(is_unknown(x) for x in b):
+                return a if is_unknown(a) else Unknown("membership test not lowered")
+            return F.fn("cmp:" + type(node.ops[0]).__name__, need(a), wrap(b))           # x in (a, b): the literal collection as one value
         if isinstance(node, (ast.ListComp, ast.GeneratorExp, ast.SetComp)):
             return self._comp(node)
         if isinstance(node, ast.Constant) and isinstance(node.value, bool):
@@ -769,7 +776,7 @@ class PathEval(AutoEvaluator):
             if not isinstance(base, tuple) and not isinstance(ix, tuple):
                 return F.fn("idx", need(base), need(ix))
         # arrays without elements
-        if d in ZERO_CTORS or d in ONE_CTORS or d in ("np.full", "np.arange", "np.ndarray"):
+        if (d in ZERO_CTORS or d in ONE_CTORS or d in ("np.full", "np.arange", "np.ndarray")) and not d.endswith("_like"):
             if node.args and not isinstance(node.args[0], ast.Starred):
                 shp = self.ev(node.args[0])
                 dims = list(shp) if isinstance(shp, tuple) else [shp]
@@ -860,13 +867,13 @@ class PathEval(AutoEvaluator):
         return v
 
     def _helper(self, name):
-        m = self.ctx.src.mod(self.rel)
+        m = raw_module(self.ctx, self.rel)
         top = self.qual.split(".")[0]
         for q in (f"{self.qual}.{name}", f"{top}.{name}"):
             if q in m.funcs and q != name:
-                return self.ctx.src.func(self.rel, q)
+                return raw_func(self.ctx, self.rel, q)
         if name in m.funcs and not name.startswith("__") and not _is_public(m, name):
-            return self.ctx.src.func(self.rel, name)
+            return raw_func(self.ctx, self.rel, name)
         return None
 
     def _inline(self, callee, node):
@@ -945,7 +952,7 @@ class Path:
 
 
 def explore(ctx, rel, qual):
-    fn = ctx.src.func(rel, qual)
+    fn = raw_func(ctx, rel, qual)
     work = [dict()]
     out = []
     runs = 0
